@@ -435,6 +435,9 @@ Definition run_unfixed (i : ops) : outs :=
       returned by earlier ordered reads) — exactly once;
     - a non-empty chunk is only returned for offsets that were inserted (below the largest
       inserted end);
+    - no loss (progress): an ordered read returns nothing only if the next byte ([bytes_read]) was
+      not inserted since the last clear; an unordered read returns nothing only if every byte
+      inserted has been returned (checked in cases without clear);
     - IllegalOrderedRead exactly when an ordered read follows an unordered one;
     - no panic.
     [reinit] restarts the bookkeeping; [clear] keeps it (data may be lost by request, never
@@ -463,34 +466,53 @@ Definition consistent (salt : Z) (i : ops) : bool :=
 Definition overlaps (l : list (Z * Z)) (s e : Z) : bool :=
   existsb (fun '(a, b) => (a <? e) && (s <? b)) l.
 
-(** state: unordered seen, returned ranges, total returned, largest inserted end *)
+(** every integer of [a, b) lies in one of the ranges of [l] (walk from [a], jumping to the
+    largest end of a range covering the current point; fuel = number of ranges + 1) *)
+Fixpoint covered_walk (fuel : nat) (l : list (Z * Z)) (a b : Z) : bool :=
+  if b <=? a then true
+  else
+    match fuel with
+    | O => false
+    | S f =>
+        match filter (fun '(s, e) => (s <=? a) && (a <? e)) l with
+        | [] => false
+        | (_, e0) :: rest => covered_walk f l (fold_left (fun m '(_, e) => Z.max m e) rest e0) b
+        end
+    end.
+Definition covered_by (l : list (Z * Z)) (a b : Z) : bool := covered_walk (S (length l)) l a b.
+
+(** state: unordered seen, returned ranges, total returned, largest inserted end, ranges inserted
+    since the last clear, whether a clear happened *)
 Fixpoint oracle_from (salt : Z) (unord : bool) (ret : list (Z * Z)) (total hi : Z)
-         (i : ops) (o : outs) : bool :=
+         (ins : list (Z * Z)) (cleared : bool) (i : ops) (o : outs) : bool :=
   match i, o with
   | [], [] => true
   | op :: i', out :: o' =>
       match op, out with
       | 0 :: offset :: alloc :: bytes, [_] =>
-          oracle_from salt unord ret total (Z.max hi (offset + zlen bytes)) i' o'
+          oracle_from salt unord ret total (Z.max hi (offset + zlen bytes))
+                      ((offset, offset + zlen bytes) :: ins) cleared i' o'
       | [1; max_length; ord], [2] =>
-          zbool ord && unord && oracle_from salt unord ret total hi i' o'
+          zbool ord && unord && oracle_from salt unord ret total hi ins cleared i' o'
       | [1; max_length; ord], [0] =>
-          (if zbool ord then negb unord else true) &&
-          oracle_from salt (unord || negb (zbool ord)) ret total hi i' o'
+          (if zbool ord then negb unord && negb (overlaps ins total (total + 1))
+           else cleared || forallb (fun '(a, b) => covered_by ret a b) ins) &&
+          oracle_from salt (unord || negb (zbool ord)) ret total hi ins cleared i' o'
       | [1; max_length; ord], 1 :: off :: bytes =>
           let n := zlen bytes in
           matches_pattern salt off bytes && (n <=? Z.max 0 max_length) && (off + n <=? hi) &&
           (if zbool ord then negb unord && (off =? total)
            else negb (overlaps ret off (off + n))) &&
           oracle_from salt (unord || negb (zbool ord))
-                      (if 0 <? n then (off, off + n) :: ret else ret) (total + n) hi i' o'
+                      (if 0 <? n then (off, off + n) :: ret else ret) (total + n) hi ins cleared i' o'
       | [2; ord], [r] =>
           (r =? b2z (zbool ord && unord)) &&
-          oracle_from salt (unord || negb (zbool ord)) ret total hi i' o'
-      | [3], [n] => (n =? total) && oracle_from salt unord ret total hi i' o'
-      | [5], [_] => oracle_from salt false [] 0 0 i' o'
+          oracle_from salt (unord || negb (zbool ord)) ret total hi ins cleared i' o'
+      | [3], [n] => (n =? total) && oracle_from salt unord ret total hi ins cleared i' o'
+      | [4], [_] => oracle_from salt unord ret total hi [] true i' o'
+      | [5], [_] => oracle_from salt false [] 0 0 [] false i' o'
       | [-999], _ => false
-      | _, _ => oracle_from salt unord ret total hi i' o'
+      | _, _ => oracle_from salt unord ret total hi ins cleared i' o'
       end
   | _, _ => false
   end.
@@ -500,6 +522,6 @@ Definition oracle (i : ops) (o : outs) : bool :=
   if consistent salt i then
     match o with
     | [[-999]] => false
-    | _ => oracle_from salt false [] 0 0 i o
+    | _ => oracle_from salt false [] 0 0 [] false i o
     end
   else true.
